@@ -46,6 +46,9 @@ Reading guide.
   missing; an EMPTY container `{}` is a given container), the start containers after the call, the logbook's
   counter and the clock the call leaves behind.  `*_meets_call_spec` are their `spec_sound` theorems,
   `call_spec_iff` says what they mean.
+* numpy arrays of dtype=object (cells `[-4]` whose references are the elements) are ordinary cells: all theorems
+  cover start containers holding them; `object_array_shallow_copy_counterexample` shows `ndarray.copy()` of a
+  top-level object array (= `levelCopy 2`) is not enough.
 * `CallX`, `stepX` : histories that also re-assign `t_cur` / `t_max`, hand over another logbook, or do things
   that must not matter (`history_with_reassignment_meets_spec`).
 -/
@@ -55,6 +58,7 @@ import PybropsModel.Lemmas.ProgramSpecIff
 import PybropsModel.Lemmas.ProgramScripted
 import PybropsModel.Lemmas.ProgramHistory
 import PybropsModel.Lemmas.ProgramEmptyDemo
+import PybropsModel.Lemmas.ProgramObjArr
 import PybropsModel.Generated.C20Schedule
 set_option autoImplicit false
 set_option linter.unusedSectionVars false
@@ -837,5 +841,26 @@ theorem shallow_level_counterexample :
     (∀ d, d < 5 → ∀ k, k ≤ d → Program.Demo.levelRunOK k d = false) ∧
     (∀ k, k < 6 → WellFormed (Program.Demo.levelSched k) = false) := by
   decide +kernel
+
+/-- **`ndarray.copy()` of an object-dtype array is not a deep copy.**  `start_genome = {"h": [1], "k1": a}` with
+    `a` a numpy array of dtype=object holding a record list and a marker vector (`objArrState`, driver cell
+    conventions), an evaluation operator that edits both elements in place.  A `reset()` that copies the
+    container as `{k: v.copy() for k, v in start.items()}` (`levelSched 2`: dict and array of references new,
+    elements shared) violates the complete oracle — the stored elements are edited (cells 3, 4) — and is
+    rejected by the dataflow analysis; a copy one level deeper, and the deep copy of the canonical skeleton
+    (by `evolve_meets_call_spec` on every heap), keep the stored initial state intact. -/
+theorem object_array_shallow_copy_counterexample :
+    Program.Demo.objArrRunOK (Program.Demo.levelSched 2) = false ∧
+    (Program.Demo.objArrRun (Program.Demo.levelSched 2)).heap[3]? = some ⟨[7, 101], []⟩ ∧
+    (Program.Demo.objArrRun (Program.Demo.levelSched 2)).heap[4]? = some ⟨[-7, 8, 102], []⟩ ∧
+    WellFormed (Program.Demo.levelSched 2) = false ∧
+    Program.Demo.objArrRunOK (Program.Demo.levelSched 3) = true ∧
+    Program.Demo.objArrRunOK canonical = true ∧
+    (Program.Demo.objArrRun canonical).heap.take 13 = Program.Demo.objArrHeap := by
+  decide +kernel
+
+/-- the schedule of the current source on the same input: Spec met, stored elements untouched -/
+example : Program.Demo.objArrRunOK C20Schedule.evolve = true ∧
+    (Program.Demo.objArrRun C20Schedule.evolve).heap.take 13 = Program.Demo.objArrHeap := by decide +kernel
 
 end C20
